@@ -30,6 +30,11 @@ pub fn bin(ctx: &mut Context, name: &str, a: Node, b: Node) -> Node {
 /// The expression graph of an SSA program (inputs 0, 1, 2 = X, Y, Z)
 pub fn prog_to_ctx(p: &Prog) -> (Context, Vec<Node>) {
     let mut ctx = Context::new();
+    let roots = prog_into_ctx(p, &mut ctx);
+    (ctx, roots)
+}
+/// The same into an existing context (which may have been used and cleared before)
+pub fn prog_into_ctx(p: &Prog, ctx: &mut Context) -> Vec<Node> {
     let axes = [ctx.x(), ctx.y(), ctx.z()];
     let mut slot: HashMap<i64, Node> = HashMap::new();
     let mut roots = vec![axes[0]; p.nout()];
@@ -41,18 +46,18 @@ pub fn prog_to_ctx(p: &Prog) -> (Context, Vec<Node>) {
             }
             1 => axes[g.a as usize % 3],
             2 => ctx.constant(unbits(g.imm)),
-            3 => un(&mut ctx, &g.name, slot[&g.a]),
+            3 => un(ctx, &g.name, slot[&g.a]),
             4 => {
                 let c = ctx.constant(unbits(g.imm));
-                bin(&mut ctx, &g.name, slot[&g.a], c)
+                bin(ctx, &g.name, slot[&g.a], c)
             }
             5 => {
                 let c = ctx.constant(unbits(g.imm));
-                bin(&mut ctx, &g.name, c, slot[&g.a])
+                bin(ctx, &g.name, c, slot[&g.a])
             }
-            _ => bin(&mut ctx, &g.name, slot[&g.a], slot[&g.b]),
+            _ => bin(ctx, &g.name, slot[&g.a], slot[&g.b]),
         };
         slot.insert(g.out, n);
     }
-    (ctx, roots)
+    roots
 }
